@@ -156,7 +156,12 @@ pub fn spec_cksm(s: &[u8], n: u32, w: u32, ls: u32) -> u16 {
 use core::sync::atomic::{AtomicU8, AtomicUsize, Ordering};
 use digest::{typenum::U32, FixedOutput, Output, OutputSizeUser, Update};
 
-pub const REC_LOG_BYTES: usize = 1 << 16;
+// log sizes matter: CBMC's cost grows with the size of these statics, so the default is small and the harnesses that need
+// more (whole 32-leaf tree, w=1 chains) run in a configuration that passes --cfg kani_biglog
+#[cfg(not(kani_biglog))]
+pub const REC_LOG_BYTES: usize = 2048;
+#[cfg(kani_biglog)]
+pub const REC_LOG_BYTES: usize = 9216;
 static REC_LOG: [AtomicU8; REC_LOG_BYTES] = [const { AtomicU8::new(0) }; REC_LOG_BYTES];
 static REC_COUNT: AtomicUsize = AtomicUsize::new(0);
 
@@ -283,6 +288,9 @@ impl<const N: usize, const CAP: usize> HashChain for RecHash<N, CAP> {
 // doc comment invites hardware accelerators to do so) is replaced by its contract: the call (chain id, from, to, start
 // value) is logged and a fresh unconstrained value returned. The real body of do_hash_chain / do_actual_hash_chain is
 // checked against this contract by the K-chain harnesses (c07_chain_*).
+#[cfg(not(kani_biglog))]
+pub const CHAIN_LOG_ENTRIES: usize = 40;
+#[cfg(kani_biglog)]
 pub const CHAIN_LOG_ENTRIES: usize = 300;
 static CHAIN_COUNT: AtomicUsize = AtomicUsize::new(0);
 static CHAIN_META: [AtomicUsize; CHAIN_LOG_ENTRIES * 3] = [const { AtomicUsize::new(0) }; CHAIN_LOG_ENTRIES * 3];
